@@ -2,60 +2,85 @@ import Proofs.Chain
 import Pegnet.Generated.Facts
 /-
   C18 — API isolation. Lean decides this at CALL GRANULARITY: every API handler call and every
-  block application is one atomic step of the model. Goroutine interleavings INSIDE a call (the
-  data race on the unsynchronised cache maps) cannot be exhibited by a sequential model; the
-  `api` scenario runs the real daemon under the race detector for that part (support, not proof).
+  block application is one atomic step of the model. Goroutine interleavings INSIDE a call
+  cannot be exhibited by a sequential model; the `api` scenario runs the real daemon under the
+  race detector for that part (support, not proof), and the regenerated facts pin down that the
+  handlers share no mutable memory with the sync loop except the atomically read sync height.
+  (Before fix 4a9cbf7 the handlers moved the sync loop's own cache; the kernel-checked witness of
+  that is kept in C09 as `restart_dependent_witness`: the same reload path.)
 -/
 namespace Pegnet.C18
 open Pegnet
 
-/-- the one API-visible operation that mutates node state: `GetPegNetRateAverages(h)` called
-    by the rich-list / global handlers with an arbitrary height -/
-def apiGetAverages (P : Params) (n : Node) (h : Nat) : Node × TMap :=
-  let (c, a) := getAverages P n.db n.cache h
-  ({ n with cache := c }, a)
+/-- the API server's own mutable state: its private averaging cache (`APIServer.avgNode`) -/
+structure Api where
+  cache : AvgCache := {}
 
-/-- Serving API requests never changes the committed ledger (handlers have no write path:
-    see `no_pool_writes`), at any interleaving of calls with blocks. -/
-theorem api_call_keeps_database (P : Params) (n : Node) (h : Nat) : (apiGetAverages P n h).1.db = n.db := rfl
+/-- the one API operation that keeps state between calls: `rateAverages(h)` of the rich-list
+    handlers. It reads the committed database and moves the API's OWN cache. -/
+def apiGetAverages (P : Params) (n : Node) (a : Api) (h : Nat) : Api × TMap :=
+  let (c, avg) := getAverages P n.db a.cache h
+  ({ cache := c }, avg)
 
-/-- the averages a handler gets are a function of the committed database and the cache -/
-theorem api_sees_committed_only (P : Params) (n₁ n₂ : Node) (h : Nat)
-    (hdb : n₁.db = n₂.db) (hc : n₁.cache = n₂.cache) : (apiGetAverages P n₁ h).2 = (apiGetAverages P n₂ h).2 := by
-  unfold apiGetAverages; rw [hdb, hc]
+/-- one event of a daemon's life at call granularity -/
+inductive Event where
+  | api (h : Nat)        -- a handler asks for averages at a height of its choosing
+  | block (b : Block)    -- the sync loop applies (or fails to apply) a block
 
-/-- …but an API call DOES disturb later sync results: it moves the shared cache, so the next
-    block's conversion pricing can differ from an undisturbed run (same witness as C09: a handler
-    asking for an old height forces the reload path). -/
-def wP : Params :=
-  { act := ⟨0,0,0,0,0,0,0,0,0,0,0,0,0,0,0,0,0⟩, tickerMax := 63, tickerNames := ["PEG", "pUSD"], oneWaySet := [],
-    snapshotRate := 144, perBlockHolders := 0, perBlockDevs := 0, bankBase := 0, avgPeriod := 8, avgRequired := 4,
-    syncVersion := 2, devs := [], «mint» := [], burnAddr := "b", oldBurnAddr := "o", mintAddr := "m", coinbaseAddr := "c", zeroAddr := "0" }
-def wDB : DB :=
-  { rates := ((List.range 20).map (· + 1)).filterMap fun h =>
-      if h = 10 then none else some { height := h, token := "pUSD", value := 100 * h } }
-def continuous (upto : Nat) : AvgCache :=
-  ((List.range upto).map (· + 1)).foldl (fun c h => (getAverages wP wDB c h).1) {}
+def stepEvent (P : Params) (s : Node × Api) : Event → Node × Api
+  | .api h => (s.1, (apiGetAverages P s.1 s.2 h).1)
+  | .block b => ((applyBlock P s.1 b).1, s.2)
 
-theorem api_poke_changes_pricing_input :
-    let undisturbed : Node := { db := wDB, cache := continuous 13 }
-    let poked := (apiGetAverages wP undisturbed 3).1          -- a handler asked for height 3
-    (getAverages wP wDB undisturbed.cache 14).2.get 2 = 1000 ∧ (getAverages wP wDB poked.cache 14).2.get 2 = 1057 := by
-  decide
+def runEvents (P : Params) (s : Node × Api) (es : List Event) : Node × Api := es.foldl (stepEvent P) s
 
-/-- Regenerated: no SQL write goes through the connection pool, and the places that touch the
-    shared in-memory node state (cache fields, sync height) from the API package and from the
-    sync loop are exactly the known ones — a new shared field or a new handler touching it breaks
-    this obligation. -/
+def blocksOf : List Event → List Block
+  | [] => []
+  | .api _ :: es => blocksOf es
+  | .block b :: es => b :: blocksOf es
+
+/-- **API isolation (call granularity).** For every interleaving of API calls with block
+    applications, the node — committed database, in-memory sync height and the averaging cache
+    conversions are priced with — ends exactly where the same blocks alone would have left it. -/
+theorem api_isolation (P : Params) (n : Node) (a : Api) (es : List Event) :
+    (runEvents P (n, a) es).1 = runBlocks P n (blocksOf es) := by
+  unfold runEvents
+  induction es generalizing n a with
+  | nil => rfl
+  | cons e es ih =>
+    cases e with
+    | api h => simpa [List.foldl, stepEvent, blocksOf] using ih n _
+    | block b => simpa [List.foldl, stepEvent, blocksOf, runBlocks] using ih _ a
+
+/-- the averages a handler gets are a function of the committed database and the API's own cache:
+    nothing of a block in progress (which lives in the sync loop's transaction) can show -/
+theorem api_sees_committed_only (P : Params) (n₁ n₂ : Node) (a : Api) (h : Nat)
+    (hdb : n₁.db = n₂.db) : (apiGetAverages P n₁ a h).2 = (apiGetAverages P n₂ a h).2 := by
+  unfold apiGetAverages; rw [hdb]
+
+/-- non-vacuity: an interleaving with API calls and a block -/
+example (b : Block) : blocksOf [.api 3, .block b, .api 1] = [b] := rfl
+
+/-- Regenerated: no SQL write goes through the connection pool, and the places where the API
+    package touches in-memory node state are exactly these: the averaging function is called only
+    on the API's private node value (`s.avgNode`, built and used in `rateAverages` alone, under
+    `s.avgMu`), never on the shared `s.Node`; the shared sync height is read through
+    `GetCurrentSync` (an atomic load); every `Synced` selector in srv is a field of a value read
+    from the database. A new handler touching shared state breaks this obligation. -/
 theorem shared_state_sites :
     Generated.poolWrites = [] ∧
     Generated.apiSharedState =
       ["srv/methods.go:getBank:srv:Synced", "srv/methods.go:getMiningDominance:srv:Synced",
        "srv/methods.go:getMiningDominance:srv:Synced", "srv/methods.go:getMiningDominance:srv:Synced",
-       "srv/methods.go:getGlobalRichList:srv:call:GetCurrentSync", "srv/methods.go:getGlobalRichList:srv:call:GetPegNetRateAverages",
-       "srv/methods.go:getRichList:srv:call:GetCurrentSync", "srv/methods.go:getRichList:srv:call:GetPegNetRateAverages",
-       "srv/methods.go:getPegnetRates:srv:Synced", "srv/methods.go:getSyncStatus:srv:call:GetCurrentSync",
-       "srv/methods.go:getSyncStatus:srv:call:GetCurrentSync", "srv/methods.go:getGraded:srv:Synced"] ∧
+       "srv/methods.go:rateAverages:srv:private:s.avgMu", "srv/methods.go:rateAverages:srv:private:s.avgMu",
+       "srv/methods.go:rateAverages:srv:private:s.avgNode",
+       "srv/methods.go:rateAverages:srv:new:node.Pegnetd{Pegnet: s.Node.Pegnet}",
+       "srv/methods.go:rateAverages:srv:private:s.avgNode",
+       "srv/methods.go:rateAverages:srv:call:s.avgNode.GetPegNetRateAverages",
+       "srv/methods.go:rateAverages:srv:private:s.avgNode",
+       "srv/methods.go:getGlobalRichList:srv:call:s.Node.GetCurrentSync",
+       "srv/methods.go:getRichList:srv:call:s.Node.GetCurrentSync",
+       "srv/methods.go:getPegnetRates:srv:Synced", "srv/methods.go:getSyncStatus:srv:call:s.Node.GetCurrentSync",
+       "srv/methods.go:getSyncStatus:srv:call:s.Node.GetCurrentSync", "srv/methods.go:getGraded:srv:Synced"] ∧
     Generated.goStatements =
       ["cmd/root.go:always:cmd:go:func() {", "node/sync.go:multiFetch:node:go:func() {",
        "srv/srv.go:Start:srv:go:func() {", "srv/srv.go:Start:srv:go:func() {"] := by
@@ -63,7 +88,6 @@ theorem shared_state_sites :
 
 end Pegnet.C18
 
-#print axioms Pegnet.C18.api_call_keeps_database
+#print axioms Pegnet.C18.api_isolation
 #print axioms Pegnet.C18.api_sees_committed_only
-#print axioms Pegnet.C18.api_poke_changes_pricing_input
 #print axioms Pegnet.C18.shared_state_sites
